@@ -27,6 +27,8 @@ def gen_doc(rng, nested=True):
     if rng.random() < 0.6:
         for k in rng.sample(['Title', 'Author', 'Date', 'Custom Key', 'Keywords'], rng.randint(1, 3)):
             meta.append((k, rng.choice(['Plain value', 'A & B', 'x < y > z', '"q" \'s\'', 'Ünï 中', 'v  w', 'a: b', '100%'])))
+        if rng.random() < 0.35:
+            meta.insert(rng.randint(0, len(meta)), ('Base Header Level', rng.choice(['2', '3', '1'])))      # shifts rendered levels, not the outline
     nsec = rng.randint(0, 6)
     level = 0
     sections = []
